@@ -370,6 +370,9 @@ class Failure:
         self.detail = detail
 
 
+CURRENT_RUN = [None]
+
+
 class Run:
     """Bookkeeping of one check run: cases, coverage, failures, evidence, verdict."""
 
@@ -387,6 +390,7 @@ class Run:
         self.rng = random.Random(seed)
         self.replaying = False
         self.shrinker = None
+        CURRENT_RUN[0] = self
 
     def case(self, key, nontrivial, sample=None, classes=()):
         self.evaluations += 1
